@@ -1133,7 +1133,7 @@ class Engine:
             d = obj.name + "." + name
             if d in self.modattrs:
                 return self.modattrs[d]
-            if obj.name == "numpy" and name in ("int8", "int16", "int32", "uint8", "uint16", "uint32", "float64"):
+            if obj.name == "numpy" and name in ("int8", "int16", "int32", "int64", "uint8", "uint16", "uint32", "float64", "float32"):
                 return ClassVal(name)
             if d in self.lib:
                 return LibCallable(d, self.lib[d])
